@@ -15,6 +15,12 @@ src/term_image/utils.py (every function, in full):
 
 other modules of src/term_image: the KSync sites only (they never see `_tty_fd`).
 
+src/term_image/widget/_urwid.py, class UrwidImageScreen(urwid.raw_display.Screen) -> a second table
+`screen_regions : list screen_method`: every method of the INSTALLED urwid's screen classes that
+reaches the terminal's files (self._term_output_file.write/flush, os.read; through self.<m>()
+calls), with: is it a public direct writer, does the library's class override it, is the
+override decorated with @lock_tty (or its whole body inside `with _tty_lock, _tty_lock:`).
+
 A site is HELD when it is lexically inside `with _tty_lock, _tty_lock:` (or two directly
 nested single withs) or inside a function decorated with `@lock_tty`; the body of a nested
 def / lambda is not held by what encloses its definition.  A read_tty / read_tty_all site
@@ -307,6 +313,110 @@ def scan_module(repo: Path, path: Path):
     return rows
 
 
+# ------------------------------------------------------------------ the urwid screen
+
+SCREEN_REL = PKG + "/widget/_urwid.py"
+SCREEN_CLASS = "UrwidImageScreen"
+
+
+def base_screen_methods():
+    """methods of the installed urwid.raw_display.Screen (and its urwid base classes) that reach
+    the terminal's files: name -> (touches, direct_public_writer)"""
+    import inspect
+
+    try:
+        import urwid
+        from urwid import raw_display
+    except Exception as e:  # the class under scrutiny only exists with urwid
+        raise Unsupported(f"urwid cannot be imported: {type(e).__name__}: {e}")
+    methods = {}  # first definition along the MRO wins
+    for cls in raw_display.Screen.__mro__:
+        if not cls.__module__.startswith("urwid"):
+            continue
+        try:
+            tree = ast.parse(inspect.getsource(inspect.getmodule(cls)))
+        except (OSError, TypeError, SyntaxError) as e:
+            raise Unsupported(f"source of {cls.__module__}.{cls.__name__} not readable: {e}")
+        cdefs = [n for n in tree.body if isinstance(n, ast.ClassDef) and n.name == cls.__name__]
+        if len(cdefs) != 1:
+            raise Unsupported(f"class {cls.__module__}.{cls.__name__} not found exactly once in its module")
+        for fn in cdefs[0].body:
+            if isinstance(fn, (ast.FunctionDef, ast.AsyncFunctionDef)):
+                if any(ast.unparse(d).endswith("overload") for d in fn.decorator_list):
+                    continue
+                methods.setdefault(fn.name, []).append(fn)  # every definition along the MRO (super() chains)
+    info = {}
+    for name, fns in methods.items():
+        out = inp = False
+        calls = set()
+        for n in (x for fn in fns for x in ast.walk(fn)):
+            if isinstance(n, ast.Call):
+                f = ast.unparse(n.func)
+                if f in ("self._term_output_file.write", "self._term_output_file.flush"):
+                    out = True
+                elif f == "os.read":
+                    inp = True
+                elif isinstance(n.func, ast.Attribute) and isinstance(n.func.value, ast.Name) and n.func.value.id == "self":
+                    calls.add(n.func.attr)
+                elif isinstance(n.func, ast.Attribute) and ast.unparse(n.func.value) == "super()":
+                    calls.add(n.func.attr)
+            elif isinstance(n, ast.Attribute) and isinstance(n.value, ast.Name) and n.value.id == "self" and n.attr in methods:
+                calls.add(n.attr)  # a bound method handed to somebody (e.g. the event loop's callback)
+        info[name] = {"out": out, "inp": inp, "calls": calls & set(methods)}
+    touches = {n for n, i in info.items() if i["out"] or i["inp"]}
+    changed = True
+    while changed:
+        changed = False
+        for n, i in info.items():
+            if n not in touches and i["calls"] & touches:
+                touches.add(n)
+                changed = True
+    if not {"write", "flush"} <= {n for n, i in info.items() if i["out"]} or not any(i["inp"] for i in info.values()):
+        raise Unsupported(f"urwid {getattr(urwid, '__version__', '?')}: Screen.write / Screen.flush / an os.read() reader "
+                          "not found where expected: the screen's I/O methods cannot be identified")
+    return {n: (True, info[n]["out"] and not n.startswith("_")) for n in touches}, set(methods), getattr(urwid, "__version__", "?")
+
+
+def scan_screen(repo: Path):
+    path = repo / SCREEN_REL
+    tree = ast.parse(path.read_text())
+    cls = [n for n in tree.body if isinstance(n, ast.ClassDef) and n.name == SCREEN_CLASS]
+    if len(cls) != 1:
+        raise Unsupported(f"{SCREEN_REL}: class {SCREEN_CLASS} not found exactly once at top level")
+    bases = [ast.unparse(b) for b in cls[0].bases]
+    if bases != ["urwid.raw_display.Screen"]:
+        raise Unsupported(f"{SCREEN_REL}:{cls[0].lineno}: bases {bases} (expected urwid.raw_display.Screen)")
+    base, base_all, version = base_screen_methods()
+    own = {}
+    for fn in cls[0].body:
+        if isinstance(fn, (ast.FunctionDef, ast.AsyncFunctionDef)):
+            if fn.name in own:
+                raise Unsupported(f"{SCREEN_REL}:{fn.lineno}: {SCREEN_CLASS}.{fn.name} defined twice")
+            locked = any(is_lock_tty_deco(d) for d in fn.decorator_list)
+            other = [ast.unparse(d) for d in fn.decorator_list if not is_lock_tty_deco(d)]
+            if other and fn.name in base:
+                raise Unsupported(f"{SCREEN_REL}:{fn.lineno}: decorators {other} on {SCREEN_CLASS}.{fn.name}")
+            body = [s for s in fn.body if not (isinstance(s, ast.Expr) and isinstance(s.value, ast.Constant))]
+            if not locked and len(body) == 1 and isinstance(body[0], ast.With):
+                k = n_lock_items(body[0])
+                inner = body[0].body
+                if k == 1 and len(inner) == 1 and isinstance(inner[0], ast.With):
+                    k += n_lock_items(inner[0])
+                locked = k >= 2
+            own[fn.name] = locked
+        elif isinstance(fn, ast.Assign):
+            for t in fn.targets:  # e.g. `write = something`: a method bound without a def
+                if isinstance(t, ast.Name) and t.id in base:
+                    raise Unsupported(f"{SCREEN_REL}:{fn.lineno}: {SCREEN_CLASS}.{t.id} is bound by assignment")
+    rows = []
+    for name in sorted(base):
+        rows.append((name, True, True, base[name][1], name in own, own.get(name, False)))
+    for name in sorted(own):
+        if name not in base:
+            rows.append((name, name in base_all, False, False, True, own[name]))
+    return rows, version
+
+
 def coq_str(s: str) -> str:
     return '"' + s.replace('"', '""') + '"'
 
@@ -318,6 +428,7 @@ def build(repo: Path | None = None) -> str:
         rows += scan_module(repo, path)
     if not rows:
         raise Unsupported("no terminal site found")
+    srows, version = scan_screen(repo)
     items = []
     for mod, qual, line, callee, kind, held, cont, same in rows:
         items.append("  {| s_mod := %s; s_func := %s; s_line := %d; s_callee := %s; s_kind := %s;\n"
@@ -335,6 +446,13 @@ def build(repo: Path | None = None) -> str:
         "",
         "Definition lock_regions : list io_site := [",
         ";\n".join(items),
+        "].",
+        "",
+        f"(* {SCREEN_REL}, class {SCREEN_CLASS}, against the installed urwid {version}: the methods of",
+        "   urwid.raw_display.Screen that reach the terminal's files, then the library's other methods *)",
+        "Definition screen_regions : list screen_method := [",
+        ";\n".join("  {| m_name := %s; m_in_base := %s; m_touches_tty := %s; m_direct := %s; m_overridden := %s; m_locked := %s |}"
+                    % ((coq_str(r[0]),) + tuple(str(x).lower() for x in r[1:])) for r in srows),
         "].",
         "",
     ])
